@@ -12,6 +12,8 @@ import os
 import random
 import subprocess
 import sys
+import threading
+import time
 import warnings
 
 import numpy as np
@@ -511,24 +513,34 @@ def run_case(case):
 
 class Worker:
     """A child interpreter for the cases that convert to one framework: Torch and TensorFlow crash when both are
-    loaded into one process here, and the parent must stay free of both."""
+    loaded into one process here, and the parent must stay free of both.  TensorFlow's oneDNN kernels crash or spin
+    in this sandbox (tf.matmul with OMP_NUM_THREADS=1), so the child runs with them switched off and under a watchdog."""
 
     def __init__(self):
-        self.p = subprocess.Popen([sys.executable, "-X", "faulthandler", os.path.abspath(__file__), "--worker"], stdin=subprocess.PIPE, stdout=subprocess.PIPE,
-                                  stderr=(open(os.environ["C12_WORKER_LOG"], "a") if os.environ.get("C12_WORKER_LOG") else subprocess.DEVNULL), text=True, bufsize=1 << 20)
+        env = dict(os.environ, TF_ENABLE_ONEDNN_OPTS="0")
+        self.p = subprocess.Popen([sys.executable, os.path.abspath(__file__), "--worker"], stdin=subprocess.PIPE, stdout=subprocess.PIPE,
+                                  stderr=(open(os.environ["C12_WORKER_LOG"], "a") if os.environ.get("C12_WORKER_LOG") else subprocess.DEVNULL),
+                                  text=True, bufsize=1 << 20, env=env)
 
-    def run(self, case):
-        self.p.stdin.write(json.dumps({k: v for k, v in case.items() if not k.startswith("_")}) + "\n")
-        self.p.stdin.flush()
-        while True:
-            line = self.p.stdout.readline()
-            if not line:
-                raise RuntimeError("C12 worker died")
-            if line.startswith("C12RESULT "):
-                r = json.loads(line[len("C12RESULT "):])
-                if "crash" in r:
-                    raise RuntimeError("C12 worker: " + r["crash"])
-                return r
+    def run(self, case, timeout=240):
+        watchdog = threading.Timer(timeout, self.p.kill)
+        watchdog.start()
+        try:
+            self.p.stdin.write(json.dumps({k: v for k, v in case.items() if not k.startswith("_")}) + "\n")
+            self.p.stdin.flush()
+            while True:
+                line = self.p.stdout.readline()
+                if not line:
+                    raise RuntimeError("C12 worker died")
+                if line.startswith("C12RESULT "):
+                    r = json.loads(line[len("C12RESULT "):])
+                    if "crash" in r:
+                        raise ValueError("C12 worker: " + r["crash"])
+                    return r
+        except OSError:
+            raise RuntimeError("C12 worker died")
+        finally:
+            watchdog.cancel()
 
     def close(self):
         try:
@@ -637,12 +649,17 @@ class C12(common.Prop):
             w = self.workers.get(conv)
             if w is None:
                 w = self.workers[conv] = Worker()
-            try:
-                r = w.run(case)
-            except RuntimeError:                      # a framework crash (not an exception): restart the child and retry once
-                w.close()
-                w = self.workers[conv] = Worker()
-                r = w.run(case)
+            r = None
+            for attempt in range(3):                  # a framework crash / hang (not an exception): restart the child and retry
+                try:
+                    r = w.run(case)
+                    break
+                except RuntimeError:
+                    w.close()
+                    time.sleep(2 * attempt)
+                    w = self.workers[conv] = Worker()
+            if r is None:
+                raise RuntimeError("the %s child interpreter died three times on this case" % conv)
         for k, v in r["stats"].items():
             st = self.opstats.setdefault(k, [0, 0])
             st[0] += v[0]
